@@ -915,6 +915,13 @@ func VerifyEvidence(doc *document.Document, evidence *document.PaceCamEvidence) 
 		return nil, fmt.Errorf("[VerifyEvidence] DecodeX962EcPoint(ChipKaPub) error: %w", err)
 	}
 
+	// the terminal private keys must lie in [1, n-1]: k and k+n act alike and would otherwise both verify
+	for _, k := range [][]byte{evidence.TermMapPri, evidence.TermKaPri} {
+		if v := new(big.Int).SetBytes(k); v.Sign() == 0 || v.Cmp(domainParams.ec.Params().N) >= 0 {
+			return nil, fmt.Errorf("[VerifyEvidence] terminal private key out of range")
+		}
+	}
+
 	// re-derive terminal mapping public key from TermMapPri and verify it matches the stored value
 	var termMapPub cryptoutils.EcPoint
 	termMapPub.X, termMapPub.Y = domainParams.ec.ScalarBaseMult(evidence.TermMapPri)
